@@ -332,6 +332,27 @@ func (Engine) Generate(prop string, r *kit.Rand, tier string) *kit.Scenario[Conf
 				continue
 			}
 		}
+		if prop == "C19" && c.N >= 2 && r.Chance(0.05) {
+			// the tables change again while a failed management command is waiting for its retry: a prefix is
+			// announced, the registration at a peer fails once or twice, the prefix is withdrawn (or its cost
+			// changes through a re-announcement elsewhere) before the retry, then time passes
+			q := r.Intn(c.N)
+			x := (q + 1 + r.Intn(c.N-1)) % c.N
+			pf := kit.Pick(r, prefixes)
+			sc.Ops = append(sc.Ops, Op{Op: "mgmtfail", R: x, K: r.Range(1, 2)}, Op{Op: "announce", R: q, Prefix: pf})
+			for k, nk := 0, r.Range(3, 10); k < nk; k++ {
+				sc.Ops = append(sc.Ops, Op{Op: "deliver", K: 0})
+			}
+			if r.Chance(0.3) {
+				sc.Ops = append(sc.Ops, Op{Op: "advance", Ms: kit.Pick(r, []int{1, 50, 99})})
+			}
+			sc.Ops = append(sc.Ops, Op{Op: "withdraw", R: q, Prefix: pf})
+			for k, nk := 0, r.Range(3, 10); k < nk; k++ {
+				sc.Ops = append(sc.Ops, Op{Op: "deliver", K: 0})
+			}
+			sc.Ops = append(sc.Ops, Op{Op: "advance", Ms: kit.Pick(r, []int{100, 300, 1000})}, Op{Op: "deliver", K: 0}, Op{Op: "advance", Ms: 500})
+			continue
+		}
 		switch r.Weighted([]int{wTick, wDeliver, wDrop, wDup, wAdv, wLink, wCrash, wPfx, wReface, wDead, wMgmt, wCorrupt, wHold}) {
 		case 12:
 			x, pt := r.Intn(c.N), kit.Pick(r, []string{"rib-update", "rib-update", "fib-update"})
